@@ -71,7 +71,7 @@ def meta_api(r, defect_case=False):
         names = list(dict.fromkeys(r.sample(RPC_POOL, r.randint(1, 6))))
         if defect_case == "unsafe" and si == 0:
             names = list(dict.fromkeys(TRANSPORT_UNSAFE + names))[:5]
-        elif defect_case is True and si == 0:
+        elif defect_case in (True, "ads-ci") and si == 0:
             names = ["GetBook", "Getbook"] + [n for n in names if n.lower() != "getbook"][:2]
         for ri, rn in enumerate(names):
             forced = defect_case == "streaming" and ri < 3      # streaming stream: requests with fields (REQUIRED, reserved words)
@@ -132,6 +132,9 @@ def meta_api(r, defect_case=False):
         files.append(g)
     transport = r.choice(["grpc", "rest", "grpc+rest", "grpc+rest"])
     params = ["metadata", f"transport={transport}"]
+    if defect_case == "ads-ci" or (defect_case in (False, True, "streaming", "presence", "unsafe") and r.random() < 0.12):
+        # the ads tree has its own copy of the fix-up template: every table of the script is checked for both trees
+        params += ["old-naming", "python-gapic-templates=ads-templates"]
     yaml = None
     # internal methods (selective generation), also together with a sub-package service (the allow-list is validated against
     # the whole API since /repo 6534fd1; witness kept in corpus/C15/C15-internal-methods-with-subpackage-service.json)
@@ -336,7 +339,8 @@ def run_t2(ctx, cases):
         checks.append((f"{lab}: metadata services", f"list_eqb String.eqb (metadata_services {S}) {coq.slist(snames)}"))
         checks.append((f"{lab}: metadata client entries (service x kind -> client)", f"list_eqb client_eqb (metadata_clients {T} {S}) {clients_term(clis)}"))
         checks.append((f"{lab}: library package",
-                       f"String.eqb (library_package false {coq.slist(d['namespace'])} {coq.s(d['name'])} {coq.s(d['version'])}) "
+                       f"String.eqb (library_package {coq.b(any(p.strip() == 'old-naming' for p in c['params']))} "
+                       f"{coq.slist(d['namespace'])} {coq.s(d['name'])} {coq.s(d['version'])}) "
                        f"{coq.s(o['metadata'].get('libraryPackage', ''))}"))
         impl_svcs = {s["name"]: s for s in o["services"]}
         checks.append((f"{lab}: service order of api.services", f"list_eqb String.eqb (map s_name {S}) {coq.slist([s['name'] for s in o['services']])}"))
@@ -422,37 +426,44 @@ def run_e2e(ctx, cases, label="e2e"):
         ci_clash = len({n.lower() for n in rpc_names}) < len(set(rpc_names))
         feats = [f"e2e transport={'+'.join(d['transports'])}"] + (["e2e internal"] if c.get("yaml") else []) + (["e2e letter-case clash"] if ci_clash else [])
         feats += ["e2e " + x for x in extra_features(c, d)]
+        feats += ["e2e ads-templates"] if any(p.strip() == "python-gapic-templates=ads-templates" for p in c["params"]) else []
         ctx.case({"e2e": env.canon_hash(case)}, nontrivial=bool(d["svcs"]), feature=feats)
         if res is None:
             ctx.violation(f"generation failed ({gen.error_kind(err)}): no gapic_metadata.json / fix-up script at all", case)
             continue
         files = gen.files_of(res)
+        ads = any(p.strip() == "python-gapic-templates=ads-templates" for p in c["params"])
         mfiles = [n for n in files if n.endswith("/gapic_metadata.json") or n == "gapic_metadata.json"]
         ffiles = [n for n in files if re.fullmatch(r"scripts/fixup_[^/]*_keywords\.py", n)]
-        if len(mfiles) != 1 or len(ffiles) != 1:
-            ctx.violation(f"expected one gapic_metadata.json and one fix-up script, found {mfiles} {ffiles}", case)
+        # (the ads tree ships gapic_metadata.json.j2 commented out: only the fix-up script and the clients are checked there)
+        if len(ffiles) != 1 or (len(mfiles) != 1 and not ads) or (ads and mfiles):
+            ctx.violation(f"expected {'no' if ads else 'one'} gapic_metadata.json and one fix-up script, found {mfiles} {ffiles}", case)
             continue
         S, T = svcs_term(d), coq.slist(d["transports"])
         # ---- T1: artefacts vs model ----
         try:
-            md = json.loads(files[mfiles[0]])
+            md = json.loads(files[mfiles[0]]) if not ads else {}
             ents, snames, clis = flatten_metadata(md)
             m2p = read_method_to_params(files[ffiles[0]])
         except Exception as e:  # noqa
             ctx.oblige(f"T1 {lab}: extraction of gapic_metadata.json / METHOD_TO_PARAMS", False, repr(e), "T1")
             continue
-        checks.append((f"{lab}: emitted gapic_metadata.json entries", f"list_eqb entry_eqb (metadata_entries {T} {S}) {entries_term(ents)}"))
-        checks.append((f"{lab}: emitted gapic_metadata.json services", f"list_eqb String.eqb (metadata_services {S}) {coq.slist(snames)}"))
-        checks.append((f"{lab}: emitted gapic_metadata.json client entries (service x kind -> client)",
-                       f"list_eqb client_eqb (metadata_clients {T} {S}) {clients_term(clis)}"))
-        checks.append((f"{lab}: emitted libraryPackage",
-                       f"String.eqb (library_package false {coq.slist(d['namespace'])} {coq.s(d['name'])} {coq.s(d['version'])}) {coq.s(md.get('libraryPackage', ''))}"))
+        if not ads:
+            checks.append((f"{lab}: emitted gapic_metadata.json entries", f"list_eqb entry_eqb (metadata_entries {T} {S}) {entries_term(ents)}"))
+            checks.append((f"{lab}: emitted gapic_metadata.json services", f"list_eqb String.eqb (metadata_services {S}) {coq.slist(snames)}"))
+            checks.append((f"{lab}: emitted gapic_metadata.json client entries (service x kind -> client)",
+                           f"list_eqb client_eqb (metadata_clients {T} {S}) {clients_term(clis)}"))
+            checks.append((f"{lab}: emitted libraryPackage",
+                           f"String.eqb (library_package false {coq.slist(d['namespace'])} {coq.s(d['name'])} {coq.s(d['version'])}) {coq.s(md.get('libraryPackage', ''))}"))
         checks.append((f"{lab}: emitted METHOD_TO_PARAMS",
                        f"params_eqb (method_to_params {coq.b(d['add_iam'])} {S}) {coq.lst(f'({coq.s(k)}, {coq.slist(v)})' for k, v in m2p)}"))
-        root = mfiles[0][: -len("gapic_metadata.json")]
+        if ads:     # ads layout: <namespace>/<name>/<version>/
+            root = "/".join([x.lower() for x in d["namespace"]] + [d["name"].lower()] + ([d["version"]] if d["version"] else [])) + "/"
+        else:
+            root = mfiles[0][: -len("gapic_metadata.json")]
         for s in d["svcs"]:
             st = f"(mkS {coq.s(s['name'])} " + coq.lst(f"mkR {coq.s(x['name'])} {coq.b(x['internal'])} {coq.b(x['pp'])} []" for x in s["rpcs"]) + ")"
-            for modname, fn, need in (("client.py", "client_name", True), ("async_client.py", "async_client_name", "grpc" in d["transports"])):
+            for modname, fn, need in (("client.py", "client_name", True), ("async_client.py", "async_client_name", "grpc" in d["transports"] and not ads)):
                 path = f"{root}{''.join(x + '/' for x in s['sub'])}services/{osnake(s['name'])}/{modname}"
                 if path not in files:
                     if need:
@@ -468,17 +479,17 @@ def run_e2e(ctx, cases, label="e2e"):
                 checks.append((f"{lab}: methods of {s['name']} defined in {modname}",
                                f"forallb (fun r => mem_str (py_method r) {coq.slist(alldefs)}) (s_rpcs {st})"))
         # ---- direct oracle (1): the JSON against the input descriptors ----
-        want_kinds = sorted(k for t in d["transports"] for k in KINDS.get(t, []))
+        want_kinds = sorted(k for t in d["transports"] for k in KINDS.get(t, [])) if not ads else []
         services = md.get("services", {})
-        if md.get("protoPackage") != d["package"]:
+        if not ads and md.get("protoPackage") != d["package"]:
             ctx.violation(f"protoPackage {md.get('protoPackage')!r} is not the API's proto package {d['package']!r}", case)
         libdir = root.rstrip("/").replace("/", ".")
-        if md.get("libraryPackage") != libdir:
+        if not ads and md.get("libraryPackage") != libdir:
             ctx.violation(f"libraryPackage {md.get('libraryPackage')!r} but the package was emitted at {libdir!r}", case)
-        if sorted(services) != sorted(s["name"] for s in d["svcs"]):
+        if not ads and sorted(services) != sorted(s["name"] for s in d["svcs"]):
             ctx.violation(f"services listed {sorted(services)} but the target package defines {sorted(s['name'] for s in d['svcs'])}", case)
         imp_checks = []
-        for s in d["svcs"]:
+        for s in ([] if ads else d["svcs"]):
             clients = services.get(s["name"], {}).get("clients", {})
             if sorted(clients) != want_kinds:
                 ctx.violation(f"service {s['name']}: client kinds {sorted(clients)} but transports {d['transports']} imply {want_kinds}", case)
@@ -520,7 +531,8 @@ def run_e2e(ctx, cases, label="e2e"):
                 clash = [n for n in byname if n != name and n.lower() == name.lower()]
                 ctx.violation(f"METHOD_TO_PARAMS[{key!r}] = {got} is not 'required fields first, then declaration order' of any RPC named {name}",
                               case, "fixup.case_insensitive_unique" if clash else None)
-        imports.append((c, case, res, md.get("libraryPackage", ""), imp_checks))
+        if not ads:
+            imports.append((c, case, res, md.get("libraryPackage", ""), imp_checks))
     # ---- direct oracle (3): the named classes and methods exist in the imported package ----
     def do_import(item):
         c, case, res, pkg, imp_checks = item
@@ -576,6 +588,9 @@ def regen(ctx):
             "{% for service in api.services.values() %}{% for method in service.methods.values() %}"]
     missing = [w for w in want if w not in t2]
     ctx.oblige("T0 fix-up template builds METHOD_TO_PARAMS by sort/unique on name, snake_case key, legacy_flattened_fields", not missing, str(missing), "T0")
+    t3 = open(os.path.join(env.REPO, "gapic/ads-templates/scripts/fixup_%name_%version_keywords.py.j2")).read()
+    missing = [w for w in want if w not in t3]
+    ctx.oblige("T0 the ads-templates copy of the fix-up template builds METHOD_TO_PARAMS the same way", not missing, str(missing), "T0")
 
 
 def evaluate(ctx, tag, checks, kind):
@@ -608,6 +623,7 @@ def run(ctx):
     e2e += [c for c in (make_case("C15-e2e-subpkg", i, "subpkg") for i in range(ctx.n(3, 12))) if c]
     e2e += [c for c in (make_case("C15-e2e-streaming", i, "streaming") for i in range(ctx.n(3, 12))) if c]
     e2e += [c for c in (make_case("C15-e2e-presence", i, "presence") for i in range(ctx.n(3, 12))) if c]
+    e2e += [c for c in (make_case("C15-e2e-ads-ci", i, "ads-ci") for i in range(ctx.n(3, 12))) if c]
     checks = run_e2e(ctx, e2e)
     failing, errors, nf = evaluate(ctx, "c15t1", checks, "T1")
     ctx.oblige(f"T1 emitted gapic_metadata.json, METHOD_TO_PARAMS and emitted class/def names = model output "
